@@ -149,6 +149,103 @@ def _arm_name_call(facts, f, t):
     return '#%d' % (sites.index(t['at']) + 1) if t['at'] in sites else 'site'
 
 
+# ------------------------------------------------------------------------------------------------ names treated on every path
+NAME_COUNT = {'NS': 1, 'CNAME': 1, 'PTR': 1, 'MX': 1, 'SOA': 2}
+
+
+def _type_const(e):
+    """'NS' when e is `Type::NS.into()` / a cast of it / the constant itself"""
+    for _ in range(4):
+        if e[0] == 'call' and e[2]:
+            e = e[2][0]
+        elif e[0] == 'cast':
+            e = e[2]
+    if e[0] == 'agg' and e[1] == 'constants::Type' and not e[3]:
+        return e[2]
+    return None
+
+
+class _NamesAu(Automaton):
+    """state (record type known on this path or None, types known to be excluded, names treated so far)"""
+    init = (None, frozenset(), 0)
+
+    def __init__(self, key, name_calls):
+        self.key, self.name_calls = key, name_calls
+        self._defs = {}
+
+    def on_edge(self, q, f, bi, t, value, target, env):
+        if f['key'] != self.key:
+            return q
+        defs = self._defs.setdefault(f['key'], F.single_defs(f))
+        e = F.expr(f, defs, t['discr'])
+        if e[0] != 'binop' or e[1] not in ('Eq', 'Ne'):
+            return q
+        v = _type_const(e[2]) or _type_const(e[3])
+        if v is None:
+            return q
+        truth = (value != 0) if value is not None else all(x == 0 for x, _ in t['targets'])
+        equal = truth if e[1] == 'Eq' else not truth
+        known, excl, n = q
+        if equal:
+            if (known is not None and known != v) or v in excl:
+                return 'PRUNE'
+            return (v, excl, n)
+        if known == v:
+            return 'PRUNE'
+        return (known, excl | {v}, n) if known is None else q
+
+    def on_call(self, q, f, bi, t, env, flow):
+        if f['key'] != self.key:
+            return None
+        p = F.call_path(t) or ''
+        if any(p.endswith(nc) for nc in self.name_calls):
+            return [((q[0], q[1], min(q[2] + 1, 3)), None)]
+        return None
+
+
+def names_on_every_path_rule(ctx, facts, cfg, rid, key, name_calls, who):
+    """A record whose type bears names (NS / CNAME / PTR / MX: one, SOA: two) leaves the re-emitter only after that many names
+    were handed to the name treatment (expansion / compression / replacement), on every path - a guarded shortcut that copies the
+    data of such a record verbatim ("already terminated", "nothing to do") is reported: whether the name needs treatment cannot be
+    told from its last byte or its length."""
+    f = facts.fn(key)
+    if f is None:
+        ctx.missing(rid, key)
+        return
+    # calls that reach a name treatment through a helper count as one treatment each
+    direct = set(name_calls)
+    helpers = set()
+    for bi, b in F.blocks(f):
+        t = b['term']
+        if t['k'] == 'call':
+            p = F.call_path(t) or ''
+            if p in facts.fns and not any(p.endswith(nc) for nc in direct):
+                seen, _, _, _ = facts.reach([p])
+                if any(any(k.endswith(nc) for nc in direct) for k in seen):
+                    helpers.add(p)
+    au = _NamesAu(key, tuple(direct) + tuple(helpers))
+    flow = PathFlow(facts, au)
+    exits = flow.summary(key, _NamesAu.init)
+    n_ok = 0
+    seen_types = set()
+    for (q, kind) in sorted(exits, key=repr):
+        known, excl, n = q
+        if kind == 'Err' or kind == 'None':
+            continue
+        if known in NAME_COUNT:
+            seen_types.add(known)
+            want = NAME_COUNT[known]
+            if n < want:
+                ctx.violation(rid, key, 'verbatim path for a name-bearing type: ' + known,
+                              '%s can finish a record of type %s after treating %d of its %d name(s): on that path the record data is emitted without %s' % (key.split('::')[-1], known, n, want, who),
+                              site=f['at'], path=flow.describe_path(key, flow.witness(key, _NamesAu.init, q, kind)), config=cfg)
+            else:
+                n_ok += 1
+    ctx.instance(rid, '%s: every path that finishes a record of type %s has treated all of its names [%s]' % (key.split('::')[-1], '/'.join(sorted(seen_types)), cfg), ok=True, site=f['at'])
+    if seen_types != set(NAME_COUNT):
+        ctx.violation(rid, '<floor>', 'name-bearing types of ' + key.split('::')[-1], 'type tests found in %s for %s only, expected %s' % (key, sorted(seen_types), sorted(NAME_COUNT)), kind='below-floor', config=cfg)
+
+
 # ------------------------------------------------------------------------------------------------ fixed parts
 def fixed_parts_rule(ctx, facts, cfg, rid, key):
     """Question arm copies exactly 4 bytes, MX arm copies header + 2, SOA copies 20 behind the second name; second SOA name starts where the first ended."""
